@@ -14,7 +14,7 @@
 
    [Fdy e f z]: f is finite and its real value is z * 2^e (both +0.0 and -0.0 are 0). *)
 From Coq Require Import ZArith List Bool Lia ZifyBool Reals Lra Floats.
-From Flocq Require Import Core.Core IEEE754.BinarySingleNaN IEEE754.PrimFloat.
+From Flocq Require Import Core.Core Plus_error IEEE754.BinarySingleNaN IEEE754.PrimFloat.
 From SP Require Import Model.Num Model.Bounds Model.Hilbert Model.Data2Coord Model.FloatData2Coord Spec.Curve
      Proofs.Data2CoordProofs.
 Import ListNotations.
@@ -35,7 +35,28 @@ Proof.
 Qed.
 
 Theorem f_data2coord_range_n : forall v lo hi n, 1 <= n -> 0 <= f_data2coord v lo hi n <= n - 1.
-Proof. intros. unfold f_data2coord. now apply i_clip_range. Qed.
+Proof.
+  intros v lo hi n Hn. unfold f_data2coord.
+  destruct (PrimFloat.eqb (PrimFloat.sub hi lo) 0%float).
+  - destruct (PrimFloat.ltb hi v); lia.
+  - now apply i_clip_range.
+Qed.
+
+(* the branch for a range without extent: cell 0 unless v > hi (NaN is not > hi), else the last *)
+Theorem f_zero_width : forall v lo hi n,
+    PrimFloat.eqb (PrimFloat.sub hi lo) 0%float = true ->
+    f_data2coord v lo hi n = if PrimFloat.ltb hi v then n - 1 else 0.
+Proof. intros v lo hi n H. unfold f_data2coord. now rewrite H. Qed.
+
+Theorem f_zero_width_cells : forall v lo hi p, 1 <= p ->
+    PrimFloat.eqb (PrimFloat.sub hi lo) 0%float = true ->
+    (f_data2coord v lo hi (2 ^ p) = 0 <-> PrimFloat.ltb hi v = false) /\
+    (f_data2coord v lo hi (2 ^ p) = 2 ^ p - 1 <-> PrimFloat.ltb hi v = true).
+Proof.
+  intros v lo hi p Hp H. rewrite (f_zero_width _ _ _ _ H).
+  assert (2 <= 2 ^ p) by (change 2 with (2 ^ 1) at 1; apply Z.pow_le_mono_r; lia).
+  destruct (PrimFloat.ltb hi v); split; split; intros; (reflexivity || discriminate || lia).
+Qed.
 
 Theorem f_data2coord_range : forall (v lo hi : float) (p : nat),
     0 <= f_data2coord v lo hi (2 ^ Z.of_nat p) <= 2 ^ Z.of_nat p - 1.
@@ -181,6 +202,16 @@ Proof.
   destruct (Z.ltb_spec za zb) as [H|H].
   - apply Rlt_bool_true. apply Rmult_lt_compat_r; [apply bpow_gt_0 | now apply IZR_lt].
   - apply Rlt_bool_false. apply Rmult_le_compat_r; [apply bpow_ge_0 | now apply IZR_le].
+Qed.
+
+Lemma Fdy_eqb : forall e a b za zb, Fdy e a za -> Fdy e b zb -> (a =? b)%float = (za =? zb).
+Proof.
+  intros e a b za zb [Fa Ra] [Fb Rb].
+  rewrite eqb_equiv, Beqb_correct by assumption. rewrite Ra, Rb.
+  destruct (Z.eqb_spec za zb) as [H|H].
+  - apply Req_bool_true. now rewrite H.
+  - apply Req_bool_false. intro E. apply Rmult_eq_reg_r in E; [|apply Rgt_not_eq, bpow_gt_0].
+    apply eq_IZR in E. contradiction.
 Qed.
 
 (* ====================================================================
@@ -390,6 +421,9 @@ Proof.
   { unfold f_scaled. replace (p - k) with (e + (p - k - e)) by lia.
     apply Fdy_mul; try assumption; [lia | apply H53; destruct Hsg; subst sg; lia]. }
   unfold f_data2coord.
+  assert (HK0 : 0 < 2 ^ k) by (apply Z.pow_pos_nonneg; lia).
+  rewrite (Fdy_eqb _ _ _ _ _ Hxw (Fdy_zero e)).
+  replace (sg * 2 ^ k =? 0) with false by (destruct Hsg as [E|E]; rewrite E; lia).
   rewrite (f_clip_cast _ ((v - lo) * sg) k p) by
     (try assumption; try lia; apply H53; destruct Hsg as [E|E]; rewrite E; lia).
   rewrite Ew, data2coord1_pow2 by (assumption || lia).
@@ -426,16 +460,6 @@ Proof.
   intros s Hs. replace (2 ^ s) with (1 * 2 ^ s) by lia. change (- s) with (0 - s).
   apply Fdy_rescale; [exact Hs|]. change 1%float with (Z2float 1). apply Fdy_of_nonneg.
   change (2 ^ 53) with 9007199254740992. lia.
-Qed.
-
-Lemma Fdy_eqb : forall e a b za zb, Fdy e a za -> Fdy e b zb -> (a =? b)%float = (za =? zb).
-Proof.
-  intros e a b za zb [Fa Ra] [Fb Rb].
-  rewrite eqb_equiv, Beqb_correct by assumption. rewrite Ra, Rb.
-  destruct (Z.eqb_spec za zb) as [H|H].
-  - apply Req_bool_true. now rewrite H.
-  - apply Req_bool_false. intro E. apply Rmult_eq_reg_r in E; [|apply Rgt_not_eq, bpow_gt_0].
-    apply eq_IZR in E. contradiction.
 Qed.
 
 (* x / 2.0 of an even number of units *)
@@ -529,7 +553,11 @@ Proof.
   destruct (Wx Sxhi) as [Fxlo Fxhi]. destruct (Wy Syhi) as [Fylo Fyhi].
   destruct (f_mid_exact _ _ _ _ _ He Hx0 Hx1 Gvx) as [Fmx Smx].
   destruct (f_mid_exact _ _ _ _ _ He Hy0 Hy1 Gvy) as [Fmy Smy].
-  cbn [fadd fhalf data2coord map] in H. inversion H; subst d; clear H.
+  cbn [fadd fhalf] in H.
+  assert (Nx : xhi - xlo <> 0) by (apply is_pow2_spec in Pwx; lia).
+  assert (Ny : yhi - ylo <> 0) by (apply is_pow2_spec in Pwy; lia).
+  rewrite (data2coord_width _ _ _ _ Nx), (data2coord_width _ _ _ _ Ny) in H. cbn [map] in H.
+  inversion H; subst d; clear H.
   rewrite (f_data2coord_exact_regime (- s) (Z.of_nat p) _ _ _ _ _ _ He' Hp' Fmx Fxlo Fxhi Smx Sxlo Sxhi Pwx).
   rewrite (f_data2coord_exact_regime (- s) (Z.of_nat p) _ _ _ _ _ _ He' Hp' Fmy Fylo Fyhi Smy Sylo Syhi Pwy).
   reflexivity.
@@ -652,19 +680,20 @@ Qed.
 
 (* For fixed finite lo and a finite non-negative factor n / (hi - lo), a larger value never gets a
    smaller cell: every operation (subtraction, multiplication, the clips, the truncation) is
-   monotone.  PARTIAL: the hypotheses exclude non-finite inputs and overflow of the two
+   monotone (in a range without extent: v > hi implies v' > hi).  PARTIAL: the hypotheses exclude non-finite inputs and overflow of the two
    intermediate results; [is_finite] and the comparisons are PrimFloat's. *)
 Theorem f_data2coord_monotone_partial : forall v v' lo hi p, 1 <= p <= 31 ->
   let c := (Z2float (2 ^ p) / (hi - lo))%float in
   PrimFloat.is_finite v = true -> PrimFloat.is_finite v' = true -> PrimFloat.is_finite lo = true ->
+  PrimFloat.is_finite hi = true ->
   PrimFloat.is_finite c = true -> (0 <=? c)%float = true ->
   PrimFloat.is_finite (v - lo)%float = true -> PrimFloat.is_finite (v' - lo)%float = true ->
   PrimFloat.is_finite ((v - lo) * c)%float = true -> PrimFloat.is_finite ((v' - lo) * c)%float = true ->
   (v <=? v')%float = true ->
   f_data2coord v lo hi (2 ^ p) <= f_data2coord v' lo hi (2 ^ p).
 Proof.
-  intros v v' lo hi p Hp c Fv Fv' Flo Fc Hc Fd Fd' Fs Fs' Hvv.
-  rewrite is_finite_equiv in Fv, Fv', Flo, Fc, Fd, Fd', Fs, Fs'.
+  intros v v' lo hi p Hp c Fv Fv' Flo Fhi Fc Hc Fd Fd' Fs Fs' Hvv.
+  rewrite is_finite_equiv in Fv, Fv', Flo, Fhi, Fc, Fd, Fd', Fs, Fs'.
   assert (Hc0 : (0 <= B2R (Prim2B c))%R).
   { destruct (Fdy_zero 0) as [F0 R0]. rewrite Rmult_0_l in R0.
     rewrite leb_equiv, Bleb_correct in Hc by assumption. rewrite R0 in Hc.
@@ -672,7 +701,14 @@ Proof.
   assert (Hle : (B2R (Prim2B v) <= B2R (Prim2B v'))%R).
   { rewrite leb_equiv, Bleb_correct in Hvv by assumption.
     destruct (Rle_bool_spec (B2R (Prim2B v)) (B2R (Prim2B v'))); [assumption | discriminate]. }
-  unfold f_data2coord. apply i_clip_mono. apply cast_clip_mono; try assumption.
+  unfold f_data2coord.
+  destruct (PrimFloat.eqb (hi - lo) 0).
+  { (* a range without extent: v > hi implies v' > hi *)
+    assert (2 <= 2 ^ p) by (change 2 with (2 ^ 1) at 1; apply Z.pow_le_mono_r; lia).
+    rewrite !ltb_equiv, !Bltb_correct by assumption.
+    destruct (Rlt_bool_spec (B2R (Prim2B hi)) (B2R (Prim2B v)));
+      destruct (Rlt_bool_spec (B2R (Prim2B hi)) (B2R (Prim2B v'))); try lia. lra. }
+  apply i_clip_mono. apply cast_clip_mono; try assumption.
   unfold f_scaled. fold c.
   rewrite !mul_finite_round by assumption.
   apply round_le; [apply FLT_exp_valid; reflexivity | apply valid_rnd_N |].
@@ -680,4 +716,50 @@ Proof.
   rewrite !sub_finite_round by assumption.
   apply round_le; [apply FLT_exp_valid; reflexivity | apply valid_rnd_N |].
   lra.
+Qed.
+
+(* ====================================================================
+   when is a range without extent?  exactly when lo and hi are the same finite number
+   ==================================================================== *)
+Theorem zero_width_iff : forall lo hi,
+  is_finite (Prim2B lo) = true -> is_finite (Prim2B hi) = true ->
+  (PrimFloat.eqb (hi - lo) 0 = true <-> B2R (Prim2B hi) = B2R (Prim2B lo)).
+Proof.
+  intros lo hi Flo Fhi. rewrite eqb_equiv, sub_equiv.
+  generalize (Bminus_correct prec emax Hprec Hmax mode_NE (Prim2B hi) (Prim2B lo) Fhi Flo).
+  set (x := B2R (Prim2B hi)). set (y := B2R (Prim2B lo)).
+  assert (Fx : generic_format radix2 fexp64 x) by apply generic_format_B2R.
+  assert (Fy : generic_format radix2 fexp64 (- y)) by (apply generic_format_opp, generic_format_B2R).
+  assert (Hv : Valid_exp fexp64) by (apply FLT_exp_valid; reflexivity).
+  destruct (Fdy_zero 0) as [F0 R0]. rewrite Rmult_0_l in R0.
+  destruct (Rlt_bool _ _) eqn:E.
+  - intros (R & F & _). rewrite Beqb_correct by assumption. rewrite R, R0. split.
+    + intro H.
+      destruct (Req_bool_spec (round radix2 fexp64 (round_mode mode_NE) (x - y)) 0) as [H0|H0];
+        [|discriminate].
+      assert (x + - y = 0)%R.
+      { apply (round_plus_eq_0 radix2 fexp64 (round_mode mode_NE)); try assumption. }
+      lra.
+    + intro H. apply Req_bool_true. replace (x - y)%R with 0%R by lra. apply round_0.
+      apply valid_rnd_N.
+  - intros (O & _). split.
+    + intro H. unfold Beqb in H. rewrite O in H. rewrite B2SF_Prim2B in H.
+      destruct (Bsign (Prim2B hi)); discriminate.
+    + intro H. exfalso. replace (x - y)%R with 0%R in E by lra.
+      rewrite round_0, Rabs_R0 in E by apply valid_rnd_N.
+      rewrite Rlt_bool_true in E; [discriminate | apply bpow_gt_0].
+Qed.
+
+(* the same in PrimFloat's own vocabulary: for finite lo, hi,  hi - lo == 0.0  iff  hi == lo
+   (gradual underflow: a difference of two different floats never rounds to zero) *)
+Theorem zero_width_eqb : forall lo hi,
+  PrimFloat.is_finite lo = true -> PrimFloat.is_finite hi = true ->
+  PrimFloat.eqb (hi - lo) 0 = PrimFloat.eqb hi lo.
+Proof.
+  intros lo hi Flo Fhi. rewrite is_finite_equiv in Flo, Fhi.
+  pose proof (zero_width_iff lo hi Flo Fhi) as [H1 H2].
+  rewrite (eqb_equiv hi lo), Beqb_correct by assumption.
+  destruct (Req_bool_spec (B2R (Prim2B hi)) (B2R (Prim2B lo))) as [E|E].
+  - now apply H2.
+  - destruct (PrimFloat.eqb (hi - lo) 0); [|reflexivity]. exfalso. apply E. now apply H1.
 Qed.
